@@ -66,6 +66,15 @@ var solveFlight sync.Map // key -> *sync.Mutex (identical queries are solved onc
 
 // Solve runs the race for one query text. Only z3 variants are asked for a model.
 func Solve(cfg *SolverCfg, smt string, wantModel bool) solverResult {
+	return solveWith(cfg, smt, wantModel, false)
+}
+
+// SolveCanary: a vacuity canary only needs "not unsat"; one short attempt is enough.
+func SolveCanary(cfg *SolverCfg, smt string) solverResult {
+	return solveWith(cfg, smt, false, true)
+}
+
+func solveWith(cfg *SolverCfg, smt string, wantModel bool, canary bool) solverResult {
 	h := sha256.Sum256([]byte(smt))
 	key := hex.EncodeToString(h[:12])
 	if r, ok := solveCache.Load(key); ok {
@@ -88,8 +97,12 @@ func Solve(cfg *SolverCfg, smt string, wantModel bool) solverResult {
 			os.Remove(file)
 		}
 	}()
-	r := runSolver("z3-new", []string{fmt.Sprintf("-T:%d", (cfg.FirstMs+999)/1000), fmt.Sprintf("-t:%d", cfg.FirstMs)}, file, cfg.FirstMs)
-	if r.status == "unsat" || r.status == "sat" {
+	first := cfg.FirstMs
+	if canary && first > 1500 {
+		first = 1500
+	}
+	r := runSolver("z3-new", []string{fmt.Sprintf("-T:%d", (first+999)/1000), fmt.Sprintf("-t:%d", first)}, file, first)
+	if r.status == "unsat" || r.status == "sat" || canary {
 		solveCache.Store(key, r)
 		return r
 	}
